@@ -142,7 +142,14 @@ def run_unit(name, rlimit=None, extra_args=(), seed=None, keep=True):
 
 
 if __name__ == '__main__':
-    r = run_unit(sys.argv[1])
-    print(json.dumps({k: v for k, v in r.items() if k not in ('stderr', 'rewrites', 'extracted', 'trusted_scan')}, indent=1))
-    if r.get('status') != 'ok':
-        print(r.get('stderr', '')[-6000:])
+    r = run_unit(sys.argv[1], rlimit=(sys.argv[2] if len(sys.argv) > 2 else None))
+    print('unit=%s status=%s verified=%s errors=%s smt_ms=%s wall=%.1fs' % (r['unit'], r['status'], r.get('verified'), r.get('errors'), r.get('smt_ms'), r.get('wall_s', 0)))
+    for f in r.get('failures', []):
+        print('--', f['obligation'], '|', f['msg'], '|', f['origins'])
+        if '-v' in sys.argv or f['class'] == 'other': print(f['text'][:1500])
+    if r['status'] in ('gen-error', 'tool-error', 'timeout', 'vacuous') and not r.get('failures'):
+        print(r.get('reason', '')[:3000])
+    slow = sorted(r.get('functions', []), key=lambda f: -f['time_us'])[:5]
+    print('slowest:', [(f['function'].split('::')[-1], f['time_us'] // 1000) for f in slow])
+    bad = [f['function'] for f in r.get('functions', []) if not f['success']]
+    if bad: print('failed functions:', bad)
